@@ -5,6 +5,7 @@
  * Program operations (thread programs T1..Tn; T0 optional: spawn/join control):
  *   reg | unreg            register / unregister as reader (bp: first use / nothing)
  *   lock | unlock          rcu_read_lock / rcu_read_unlock (nesting allowed)
+ *   nest n | unnest n      n further nested rcu_read_lock() / rcu_read_unlock() calls inside the current section (depths around 2^8, 2^15, 2^16, 2^17)
  *   read u                 litmus + pointer reads for updater slot u (inside a section / qsbr online)
  *   sync u                 A[u]=g; old=xchg(P[u],new); synchronize_rcu(); B[u]=g; poison+free(old)
  *   qs | offline | online  qsbr only
@@ -30,7 +31,7 @@
 #define MAXTH 16
 
 enum { EV_SEC_BEGIN = 1, EV_SEC_END, EV_SYNC_ENT, EV_SYNC_RET };
-enum { CF_GP_WAITED = 0, CF_SYNC_CONCURRENT = 1, CF_NESTED = 2, CF_SIG_IN_LIB = 3, CF_REG_DURING_GP = 4, CF_HANDLER_SEC = 5, CF_BP_GROW = 6, CF_SOLO_DURING_GP = 7, CF_WAITED_FOR_GP = 8, CF_HERD = 9 };
+enum { CF_GP_WAITED = 0, CF_SYNC_CONCURRENT = 1, CF_NESTED = 2, CF_SIG_IN_LIB = 3, CF_REG_DURING_GP = 4, CF_HANDLER_SEC = 5, CF_BP_GROW = 6, CF_SOLO_DURING_GP = 7, CF_WAITED_FOR_GP = 8, CF_HERD = 9, CF_DEEP_NEST = 10 };
 
 struct node { unsigned long gen, chk; };
 
@@ -234,16 +235,17 @@ static void on_signal(int tid)
 static NS void set_registered(int v) { me_ts()->registered = v; if (sync_active) ds_flag(CF_REG_DURING_GP); }
 static NS void set_online(int v) { me_ts()->online = v; }
 
-enum { OP_REG, OP_UNREG, OP_LOCK, OP_UNLOCK, OP_READ, OP_SYNC, OP_QS, OP_OFFLINE, OP_ONLINE, OP_YIELD, OP_SPAWN, OP_JOIN, OP_GATE, OP_WAITSYNC, OP_QSWAIT, OP_HERD, OP_UNHERD, OP_BAD };
+enum { OP_REG, OP_UNREG, OP_LOCK, OP_UNLOCK, OP_READ, OP_SYNC, OP_QS, OP_OFFLINE, OP_ONLINE, OP_YIELD, OP_SPAWN, OP_JOIN, OP_GATE, OP_WAITSYNC, OP_QSWAIT, OP_HERD, OP_UNHERD, OP_NEST, OP_UNNEST, OP_BAD };
 static NS int fetch(int t, int i, long *a0)
 {
-	static const char *names[] = { "reg", "unreg", "lock", "unlock", "read", "sync", "qs", "offline", "online", "yield", "spawn", "join", "gate", "waitsync", "qswait", "herd", "unherd" };
+	static const char *names[] = { "reg", "unreg", "lock", "unlock", "read", "sync", "qs", "offline", "online", "yield", "spawn", "join", "gate", "waitsync", "qswait", "herd", "unherd", "nest", "unnest" };
 	const struct ds_op *o = ds_op(t, i);
 	*a0 = o->a[0];
 	for (int k = 0; k < OP_BAD; k++) if (!strcmp(o->name, names[k])) return k;
 	ds_bad_case("gp: unknown op %s", o->name);
 }
 static NS int my_online(void) { return me_ts()->online; }
+static NS int in_section_now(void) { return me_ts()->depth > 0; }
 static NS int get_sync_active(void) { return sync_active; }
 
 static void *thread_main(void *arg)
@@ -292,6 +294,22 @@ static void *thread_main(void *arg)
 		else if (op == OP_QS) { sec_end(); lib_enter(); F(quiescent_state)(); lib_exit(); sec_begin(); }
 		else if (op == OP_OFFLINE) { sec_end(); set_online(0); lib_enter(); F(thread_offline)(); lib_exit(); }
 		else if (op == OP_ONLINE) { lib_enter(); F(thread_online)(); lib_exit(); set_online(1); sec_begin(); }
+#endif
+#ifndef FL_QSBR
+		/* deep nesting: a0 more nested rcu_read_lock() calls inside the current section (all but the last two as one scheduling step), later undone by
+		 * unnest; only the outermost lock/unlock delimit the section for the oracles */
+		else if (op == OP_NEST) {
+			if (!in_section_now()) ds_bad_case("gp: nest outside a section");
+			ds_flag(CF_DEEP_NEST);
+			long n = a0, fast = n > 2 ? n - 2 : 0;
+			ds_bulk(1); for (long k = 0; k < fast; k++) F(read_lock)(); ds_bulk(0);
+			for (long k = fast; k < n; k++) { lib_enter(); F(read_lock)(); lib_exit(); }
+		}
+		else if (op == OP_UNNEST) {
+			long n = a0, slow = n > 2 ? 2 : n;
+			for (long k = 0; k < slow; k++) { lib_enter(); F(read_unlock)(); lib_exit(); }
+			ds_bulk(1); for (long k = slow; k < n; k++) F(read_unlock)(); ds_bulk(0);
+		}
 #endif
 		else if (op == OP_WAITSYNC) wait_for_syncs(inflight_snapshot());
 #ifdef FL_QSBR
